@@ -1,6 +1,7 @@
 package sync
 
 import (
+	"bytes"
 	"context"
 	"errors"
 	"fmt"
@@ -67,6 +68,11 @@ func (s *syncStore[H]) Append(ctx context.Context, headers ...H) error {
 	//  To be reworked by bsync.
 	if headers[0].Height() >= head.Height() {
 		for _, h := range headers {
+			if h.Height() == head.Height() && bytes.Equal(h.Hash(), head.Hash()) {
+				// the head itself again (e.g. the last header of a requested range that a
+				// concurrent append has stored meanwhile): nothing new to check
+				continue
+			}
 			if h.Height() != head.Height()+1 {
 				return &errNonAdjacent{
 					Head:      head.Height(),
